@@ -718,6 +718,23 @@ func (g *dgen) method(svc *spec.Service, idx int) *spec.Method {
 		path = strings.TrimSuffix(path, "/{"+last+"}") + "/{*" + last + "}"
 		star = true
 		g.feat("loc:path-catch-all")
+		// the other path parameters of such a route never hold a '/' (value generation takes it out: the recorded
+		// "'/' sent unescaped" defect would push everything after it into the wildcard), so their enums must not
+		// ask for one
+		for _, pp := range pathParams[:n-1] {
+			if pp.Val == nil || len(pp.Val.Enum) == 0 {
+				continue
+			}
+			var keep []any
+			for _, e := range pp.Val.Enum {
+				if sv, ok := e.(string); !ok || !strings.Contains(sv, "/") {
+					keep = append(keep, e)
+				}
+			}
+			if pp.Val.Enum = keep; len(keep) == 0 {
+				pp.Val = nil
+			}
+		}
 		// ... and may share its path with the previous catch-all route of the service, under another verb and
 		// another wildcard name (GET /files/{*path}, PUT /files/{*name})
 		if false && n == 1 && g.prevStar != nil && t.Draw("catch-all-sibling", 4) != 0 { // (superseded by catchAllSibling: two mechanisms could give two methods the same verb on one path)
